@@ -3,7 +3,9 @@
 Correspondence: the real `RateLimiter` with its real clean-up task running on a virtual-clock event loop
 (`time` inside `nauyaca.server.middleware` replaced by a shim reading the same clock), fed arrival
 histories on a 1/8 s grid with dyadic refill rates (so Python floats are exact), against `Mw.runL` in the
-Lean model (`Rat` arithmetic, clean-up passes as explicit events).  Family `wiring` takes the
+Lean model (`Rat` arithmetic, clean-up passes as explicit events).  Family `crowd` adds big tables (an address's bursts around a crowd of
+up to 10^4 / 2.6*10^5 other addresses) and bursts scheduled in a chosen loop iteration around a due clean-up
+wake-up.  Family `wiring` takes the
 `[rate_limit]` table of a TOML file through `nauyaca serve --config` to the chain and protocol the server
 would run.
 
@@ -42,6 +44,7 @@ ASSUMPTIONS = [
     "time.monotonic never goes backwards (histories are time-ordered); wall-clock jumps (time.time) are not modelled — the limiter reads time.monotonic only, which the harness checks by substituting the module's clock",
     "Python float arithmetic is modelled by Rat; the correspondence is restricted to a 1/8 s time grid and dyadic refill rates on which the two coincide exactly; rounding off that grid is not modelled (partial)",
     "concurrency: TokenBucket.consume and RateLimiter.process_request contain no await (extraction item limiterAtomic), so concurrent calls are serialised by the event loop; batches launched with asyncio.gather are additionally compared",
+    "family crowd: bursts are placed in a chosen event-loop iteration after a clean-up wake-up became due (before, during or after the pass) and around crowds of 3 .. 16400 (quick) / 262200 (thorough) other distinct addresses; the model line of that family is built from the OBSERVED order of passes and requests (histories up to 5000 events), the direct oracle does not use it",
     "clean-up passes run at start + k * 300 s (extraction item cleanupPeriod); the theorems hold for passes at arbitrary times",
 ]
 LEVEL_TEXT = (
